@@ -1,8 +1,144 @@
 import GraafVerif.Driver.Common
-/-! Driver handlers for property C04 (ops the harness module `ops/c04.rs` emits). -/
-namespace GraafVerif.Driver.H04
-open GraafVerif GraafVerif.Driver
+import GraafVerif.Model.Bfs
+/-!
+Driver handlers for property C04 (ops of `harness/src/ops/c04.rs`):
 
-def handlers : List (String × Handler) := []
+  bfs_iter           <desc> <sources>  =>  panic | [v …]
+  bfs_dist_iter      <desc> <sources>  =>  panic | [[v w] …]
+  bfs_dist_distances <desc> <sources>  =>  panic | [d …]        (`usize::MAX` printed in full)
+
+Correspondence: the model of `Model/Bfs.lean` on `GDesc.graph`.  Property oracle (only for a
+buildable description and distinct in-range sources, which is what C04 speaks about): the naive
+`hopDistB` / `reachSetB` of `Spec/Graph.lean` judge the IMPLEMENTATION's output.
+-/
+namespace GraafVerif.Driver.H04
+open GraafVerif GraafVerif.Driver GraafVerif.Bfs
+
+def usizeMax : Nat := 18446744073709551615
+
+/-- The description can be built by the harness (`empty(n)` needs `n ≥ 1`, `add_arc` asserts
+in-range distinct endpoints; `am` must have the contiguous vertex set). -/
+def descOk (d : GDesc) : Bool :=
+  d.order ≥ 1 && d.verts == List.range d.order &&
+  d.arcs.all (fun a => a.1 < d.order && a.2 < d.order && a.1 != a.2) &&
+  (d.repr != "wu" || d.warcs.all (fun a => a.2.2 ≥ 0))
+
+def nodupB : List Nat → Bool
+  | [] => true
+  | x :: xs => !xs.contains x && nodupB xs
+
+def sortedB : List Nat → Bool
+  | [] => true
+  | [_] => true
+  | x :: y :: r => x ≤ y && sortedB (y :: r)
+
+/-- Sources the property quantifies over. -/
+def srcOk (n : Nat) (S : List Nat) : Bool := nodupB S && S.all (· < n)
+
+def resV {α : Type} (f : α → V) : Res α → List V
+  | .panic => [.a "panic"]
+  | .ok a => [f a]
+
+structure Ctx where
+  d : GDesc
+  g : Graph
+  S : List Nat
+  inProp : Bool
+  hd : List (Option Nat)      -- naive hop distances (only meaningful when `inProp`)
+  reach : List Bool           -- naive reachable set
+  oracleOk : Bool             -- the naive oracle agrees with the PROVED model on this input
+  tags : List String
+
+def mkCtx (desc srcs : V) : Option Ctx := do
+  let d ← GDesc.parse desc
+  let S ← V.listOf? V.nat? srcs
+  let g := d.graph
+  let ok := descOk d
+  let inProp := ok && srcOk d.order S
+  let hd := if inProp then hopDistB g S else []
+  -- `reachSetB` costs order * arcs * order list steps: second opinion on small and medium orders only
+  let reach := if !inProp then [] else if d.order ≤ 40 then reachSetB g S else hd.map Option.isSome
+  -- `distances` of the model is proved to be the exact hop-distance vector (Thm/C04
+  -- `distances_correct`), so this comparison certifies the naive oracle case by case
+  let oracleOk := !inProp ||
+    resV V.ofNats (distances g S usizeMax) == [V.ofNats (hd.map (fun o => o.getD usizeMax))]
+  let nReach := (reach.filter id).length
+  let tags := [d.repr, (if d.order ≤ 8 then "n1-8" else if d.order ≤ 40 then "n9-40" else "n>40"),
+    (if S.isEmpty then "src0" else if S.length == 1 then "src1" else "src>1"),
+    (if !ok then "bad-desc" else if !inProp then "bad-sources"
+     else if nReach == d.order then "reach-all" else if nReach ≤ S.length then "reach-only-sources" else "reach-part")]
+  pure ⟨d, g, S, inProp, hd, reach, oracleOk, tags⟩
+
+def Ctx.dist (c : Ctx) (v : Nat) : Option Nat := (c.hd[v]?).getD none
+
+/-- A non-trivial case: some non-source vertex is reachable. -/
+def Ctx.nt (c : Ctx) : Bool := c.inProp && (c.reach.filter id).length > c.S.length
+
+/-- "each reachable vertex exactly once, no other vertex, non-decreasing hop distance". -/
+def checkOrder (c : Ctx) (vs : List Nat) : Option String :=
+  if !nodupB vs then some "a vertex is yielded twice"
+  else if !vs.all (fun v => (c.reach[v]?).getD false) then some "an unreachable vertex is yielded"
+  else if vs.length != (c.reach.filter id).length then some "a reachable vertex is not yielded"
+  else if !vs.all (fun v => (c.dist v).isSome) then some "oracles disagree (reachSetB vs hopDistB)"
+  else if !sortedB (vs.map (fun v => (c.dist v).getD 0)) then some "hop distances decrease along the output"
+  else none
+
+/-- Descriptions the harness cannot build (never generated; the shrinker may produce them) are
+outside every statement here: trivial `OK`, tagged `bad-desc`. -/
+def finish (c : Ctx) (obs model : List V) (propFail : Option String) : Verdict :=
+  if !descOk c.d then
+    { status := "OK", nontrivial := false, tags := c.tags }
+  else if !c.oracleOk then
+    -- machinery error, never a silent pass: the search oracle contradicts a proved computation
+    bad "oracle hopDistB disagrees with the proved model of distances()"
+  else
+    classify obs model (if c.inProp then propFail else none) (nt := c.nt) c.tags
+
+def hIter : Handler := fun _ args obs =>
+  match args with
+  | [desc, srcs] => do
+    let c ← mkCtx desc srcs
+    let model := resV V.ofNats (bfs c.g c.S)
+    let pf : Option String :=
+      match obs with
+      | [v] => match V.listOf? V.nat? v with
+        | some vs => checkOrder c vs
+        | none => some "the call panicked / returned no list"
+      | _ => some "malformed output"
+    pure (finish c obs model pf)
+  | _ => none
+
+def hDistIter : Handler := fun _ args obs =>
+  match args with
+  | [desc, srcs] => do
+    let c ← mkCtx desc srcs
+    let model := resV V.ofPairs (bfsDist c.g c.S)
+    let pf : Option String :=
+      match obs with
+      | [v] => match V.listOf? (V.pair? V.nat? V.nat?) v with
+        | some ps =>
+          match checkOrder c (ps.map (·.1)) with
+          | some e => some e
+          | none =>
+            if ps.all (fun p => c.dist p.1 == some p.2) then none
+            else some "a yielded distance is not the hop distance"
+        | none => some "the call panicked / returned no list"
+      | _ => some "malformed output"
+    pure (finish c obs model pf)
+  | _ => none
+
+def hDistances : Handler := fun _ args obs =>
+  match args with
+  | [desc, srcs] => do
+    let c ← mkCtx desc srcs
+    let model := resV V.ofNats (distances c.g c.S usizeMax)
+    let want : List V := [V.ofNats (c.hd.map (fun o => o.getD usizeMax))]
+    let pf : Option String :=
+      if obs == want then none else some s!"hop-distance vector should be {want}"
+    pure (finish c obs model pf)
+  | _ => none
+
+def handlers : List (String × Handler) :=
+  [("bfs_iter", hIter), ("bfs_dist_iter", hDistIter), ("bfs_dist_distances", hDistances)]
 
 end GraafVerif.Driver.H04
